@@ -21,6 +21,19 @@ use crate::{choices::Choices, core::Injected};
 
 thread_local! {
     static MY_TID: Cell<usize> = const { Cell::new(usize::MAX) };
+    /// the virtual instant by which the blocking call this thread is in must stop waiting, and the
+    /// scheduling-delay credit of the thread when that call started
+    static DEADLINE: Cell<Option<(Duration, Duration)>> = const { Cell::new(None) };
+}
+
+/// Run `f` (a blocking call with a timeout) and report a C08 violation if it ever starts a wait that
+/// ends after call time + timeout + the time that passed while the caller was runnable but not running.
+pub fn with_deadline<R>(sched: &SchedRef, timeout: Duration, f: impl FnOnce() -> R) -> R {
+    let prev = DEADLINE.with(|d| d.get());
+    DEADLINE.with(|d| d.set(Some((sched.now().saturating_add(timeout), sched.my_credit()))));
+    let r = f();
+    DEADLINE.with(|d| d.set(prev));
+    r
 }
 
 pub fn my_tid() -> usize {
@@ -605,6 +618,21 @@ impl Hooks for ThreadHooks {
     }
 
     fn condvar_wait(&self, cv: usize, timeout: Option<Duration>) -> bool {
+        if let (Some((dl, credit0)), Some(t)) = (DEADLINE.with(|d| d.get()), timeout) {
+            let now = self.sched.now();
+            let slack = self.sched.my_credit().saturating_sub(credit0);
+            let dl = dl.saturating_add(slack);
+            if now.saturating_add(t) > dl + Duration::from_nanos(1) {
+                self.sched.violate(
+                    "C08",
+                    "waits_past_timeout",
+                    format!(
+                        "a blocking call that must return by {dl:?} starts a wait of {t:?} at {now:?} (it would sleep until {:?})",
+                        now + t
+                    ),
+                );
+            }
+        }
         self.sched.cv_wait(cv, timeout)
     }
 
